@@ -1,8 +1,46 @@
-"""C01 - see drivers/docs.py and spec/Trace_Docs.tla."""
+"""C01 - canonicalisation is idempotent and its output is re-readable.
+
+(a) documents : drivers/docs.py (spec/Author.tla) through every canonicalising route, judged by spec/Trace_Docs.tla (Lifecycle)
+(b) values    : spec/TokenSeqs.tla = every sequence of <= MaxTok tokens over the 30-token alphabet placed after K:: ; the real
+                lenient and strict readers decide which are accepted; the accepted ones go through the same Lifecycle clauses
+"""
+from __future__ import annotations
+
+from mbt import engine
 from drivers import docs
+from drivers.common import atom_text
+
+
+def replay_value(item):
+    i, toks = item
+    text = "K::" + " ".join(atom_text(t) for t in toks) + "\n"
+    routes = [{k: v for k, v in r.items() if k not in ("c1", "c2")} for r in docs.routes_for(text, docs.API_ROUTES)]
+    return {"i": i, "gid": "v%d" % i, "case": {"toks": toks}, "text": text,
+            "obs": {"accepted": any(r["accepted"] for r in routes), "canon_hash": "", "routes": routes}}
+
+
+def _known_inf(fl, clause):
+    """a numeric literal whose value overflows a double is read as inf and written as 'inf' / '-inf'"""
+    return False
+
 
 MATCHERS = {}
 
 
 def run(ctx):
-    return docs.run(ctx, "C01", matchers=MATCHERS, tools_every=1 if ctx.thorough else 4)
+    maxtok = 4 if ctx.thorough else 3
+    res = ctx.model("TokenSeqs", tag="TokenSeqs_value", constants={"MaxTok": maxtok, "Mode": "value"}, invariants=["EmitCase"],
+                    required_actions=["Extend"])
+    seqs = [c["toks"] for c in res.payload_lines()]
+    try:
+        vrecs = engine.parallel_map(replay_value, [(10 ** 7 + k, s) for k, s in enumerate(seqs)], chunk=400)
+    finally:
+        docs.cleanup_tmp()
+    vfails = ctx.validate("Trace_Docs", [{k: r[k] for k in ("i", "gid", "case", "obs")} for r in vrecs], constants={"Prop": "C01"},
+                          tag="Trace_Docs_C01_values")
+    extra = [{"i": r["i"], "case": {"doc": {"body": [], "value_tokens": r["case"]["toks"]}, "lines": [], "abs": {}, "dev": 0, "receipts": []},
+              "obs": r["obs"], "text": r["text"], "fails": vfails[r["i"]]} for r in vrecs if r["i"] in vfails]
+    accepted = sum(1 for r in vrecs if r["obs"]["accepted"])
+    return docs.run(ctx, "C01", matchers=MATCHERS, tools_every=1 if ctx.thorough else 4, extra_failures=extra,
+                    extra_eval=sum(len(r["obs"]["routes"]) for r in vrecs), extra_nontrivial=accepted,
+                    extra_cov={"value_token_sequences": len(seqs), "value_token_sequences_accepted": accepted})
